@@ -20,15 +20,18 @@ PIPELINES = {
     "B2": (["compute_tip_position", "correct_tip_offset", "correct_force_slope"],
            {"correct_force_slope": {"region": "all", "strategy": "drift"}}),
     "B0": (["compute_tip_position", "correct_tip_offset", "correct_force_slope"], {}),
+    "T": (["compute_tip_position", "correct_tip_offset"], {}),
     "E": ([], {}),
     # rejected requests
     "X_missing_prerequisite": (["correct_tip_offset"], {}),
     "X_unknown_step": (["compute_tip_position", "no_such_step"], {}),
+    # the same steps as the valid pipeline T, in an order that violates a requirement
+    "X_wrong_order": (["correct_tip_offset", "compute_tip_position"], {}),
     "X_invalid_option": (["compute_tip_position", "correct_tip_offset", "correct_force_slope"],
                          {"correct_force_slope": {"region": "baseline", "strategy": "bogus"}}),
 }
-VALID = ["A", "B", "B2", "B0", "E"]
-INVALID = ["X_missing_prerequisite", "X_unknown_step", "X_invalid_option"]
+VALID = ["A", "B", "B2", "B0", "T", "E"]
+INVALID = ["X_missing_prerequisite", "X_unknown_step", "X_invalid_option", "X_wrong_order"]
 
 
 class Sys:
